@@ -399,7 +399,9 @@ class ResNetwork(GeoNetwork):
         """
         # a sparse matrix for the admittance values
         self.sparse_R = sparse.lil_matrix(
-            np.linalg.pinv(self.admittance_lapacian()))
+            #  (the cutoff has to discard the zero mode of the Laplacian,
+            #  which the SVD returns as ~1e-13 for more than 25 nodes)
+            np.linalg.pinv(self.admittance_lapacian(), rcond=1e-10))
 
     def get_R(self):
         """Return the pseudo inverse of of the admittance Laplacian
